@@ -6,7 +6,7 @@ navigation or serialisation code.
 
 
 class M:
-    __slots__ = ('kind', 'name', 'begin', 'end', 'args', 'body', 'text', 'parent', 'real', 'uid')
+    __slots__ = ('kind', 'name', 'begin', 'end', 'args', 'body', 'text', 'parent', 'real', 'uid', 'argflag')
     _n = 0
 
     def __init__(self, kind, name=None, begin='', end='', text=None, real=None):
@@ -19,6 +19,7 @@ class M:
         self.text = text
         self.parent = None
         self.real = real
+        self.argflag = False    # this group is (or was created as) an argument of its parent
         M._n += 1
         self.uid = M._n
 
@@ -26,12 +27,14 @@ class M:
     def adopt(self):
         for a in self.args:
             a.parent = self
+            a.argflag = True
         for b in self.body:
             b.parent = self
 
     def is_arg(self):
-        p = self.parent
-        return p is not None and any(a is self for a in p.args)
+        # persistent: an argument group that has been removed from its owner's
+        # list is still an argument group (navigation never treats it as a body)
+        return self.argflag
 
     def in_parent(self):
         p = self.parent
